@@ -50,4 +50,5 @@ f851927 C01
 2fd3255 C18
 d2451f6 C18
 a46d743 C13 C14
+a1887f0 C02
 LIST
